@@ -68,9 +68,27 @@ type OStatus struct {
 	Msg  string `json:"msg"`
 	Code int32  `json:"code"`
 }
+// OLink / OMore: the remaining fields of a trace.v1.Span (trace_state, dropped counts, flags, links): untouched by the write path, part of the payload
+type OLink struct {
+	Tid     string `json:"tid"` // hex
+	Sid     string `json:"sid"`
+	State   string `json:"state"`
+	Attrs   []KV   `json:"attrs"`
+	Dropped uint32 `json:"dropped"`
+	Flags   uint32 `json:"flags"`
+}
+type OMore struct {
+	State   string  `json:"state"`
+	DAttrs  uint32  `json:"dattrs"`
+	DEvents uint32  `json:"devents"`
+	DLinks  uint32  `json:"dlinks"`
+	Flags   uint32  `json:"flags"`
+	Links   []OLink `json:"links"`
+}
 type OSpan struct {
 	Events []OEvent `json:"events,omitempty"`
 	Status *OStatus `json:"status,omitempty"`
+	More   *OMore   `json:"more,omitempty"`
 	Tid   string `json:"tid"` // hex
 	Sid   string `json:"sid"`
 	Pid   string `json:"pid"`
@@ -149,6 +167,8 @@ type RSpan struct {
 	// Events: the span's events as (time_unix_nano, name); Status: status code
 	Events []Ev `json:"ev"`
 	Status int32 `json:"status"`
+	// More: trace_state, dropped counts, flags and links of the span OutputQuery returned (always set for a returned span)
+	More *OMore `json:"more,omitempty"`
 }
 type Ev struct {
 	T uint64 `json:"t"`
@@ -326,7 +346,25 @@ func toSpan(s OSpan) *trace.Span {
 	if s.Status != nil {
 		sp.Status = &trace.Status{Message: s.Status.Msg, Code: trace.Status_StatusCode(s.Status.Code)}
 	}
+	if m := s.More; m != nil {
+		sp.TraceState, sp.DroppedAttributesCount, sp.DroppedEventsCount, sp.DroppedLinksCount, sp.Flags = m.State, m.DAttrs, m.DEvents, m.DLinks, m.Flags
+		for _, l := range m.Links {
+			sp.Links = append(sp.Links, &trace.Span_Link{TraceId: unhex(l.Tid), SpanId: unhex(l.Sid), TraceState: l.State,
+				Attributes: toKVs(l.Attrs), DroppedAttributesCount: l.Dropped, Flags: l.Flags})
+		}
+	}
 	return sp
+}
+
+// moreOf: the further fields of a span as it came back from storage
+func moreOf(s *trace.Span) *OMore {
+	m := &OMore{State: s.TraceState, DAttrs: s.DroppedAttributesCount, DEvents: s.DroppedEventsCount, DLinks: s.DroppedLinksCount,
+		Flags: s.Flags, Links: []OLink{}}
+	for _, l := range s.Links {
+		m.Links = append(m.Links, OLink{Tid: hex.EncodeToString(l.TraceId), Sid: hex.EncodeToString(l.SpanId), State: l.TraceState,
+			Attrs: fromKVs(l.Attributes), Dropped: l.DroppedAttributesCount, Flags: l.Flags})
+	}
+	return m
 }
 
 func fromSpan(s *trace.Span) *OSpan {
@@ -712,6 +750,7 @@ func readRows(rs [][]driver.Value) (out []RSpan, pan string) {
 			} else {
 				x.Status = -1
 			}
+			x.More = moreOf(s)
 		} else {
 			x.Ok = false
 		}
@@ -1147,7 +1186,9 @@ func run(c *Case, silence bool) {
 							y = out2[0]
 							sort.SliceStable(y.Attrs, func(a, b int) bool { return y.Attrs[a].K < y.Attrs[b].K })
 						}
-						full := rspanDiff(x, y)
+						xj := x
+						xj.More, y.More = nil, nil // the legacy form is rendered without trace_state / counts / links / flags
+						full := rspanDiff(xj, y)
 						switch {
 						case full == "":
 						case dupKeys(sp.Attributes):
@@ -1155,7 +1196,7 @@ func run(c *Case, silence bool) {
 						case sp.StartTimeUnixNano >= 1<<63 || sp.EndTimeUnixNano >= 1<<63:
 							addKnown(c, "time63")
 						default:
-							if d := rspanDiff(coreOf(x), coreOf(y)); d != "" {
+							if d := rspanDiff(coreOf(xj), coreOf(y)); d != "" {
 								if c.JSONDiff == "" {
 									c.JSONDiff = fmt.Sprintf("row %d: %s", len(c.Read)-1, d)
 									if len(c.JSONDiff) > 1500 {
@@ -1382,6 +1423,32 @@ func genOtlp(r *rand.Rand, c *Case, depth int) {
 					if r.Intn(3) != 0 {
 						sp.Status = &OStatus{Msg: pick(r, []string{"", "boom", "é"}), Code: int32(r.Intn(3))}
 					}
+				}
+				if r.Intn(5) == 0 { // trace_state, dropped counts, flags, links: carried through the write path inside the payload
+					m := &OMore{State: pick(r, []string{"", "rojo=00f067aa0ba902b7", "k=v,k2=v2"}), Links: []OLink{}}
+					u32 := func() uint32 {
+						switch r.Intn(4) {
+						case 0:
+							return 0
+						case 1:
+							return ^uint32(0)
+						case 2:
+							return uint32(r.Intn(300))
+						}
+						return r.Uint32()
+					}
+					m.DAttrs, m.DEvents, m.DLinks, m.Flags = u32(), u32(), u32(), u32()
+					for n := r.Intn(3); n > 0; n-- {
+						l := OLink{Tid: genID(r, 16), Sid: genID(r, 8), State: pick(r, []string{"", "a=b"}), Attrs: []KV{}, Dropped: u32(), Flags: u32()}
+						if r.Intn(6) == 0 { // an empty link message
+							l = OLink{Attrs: []KV{}}
+						}
+						if r.Intn(2) == 0 {
+							l.Attrs = genKVs(r, 1+r.Intn(2), 1, false)
+						}
+						m.Links = append(m.Links, l)
+					}
+					sp.More = m
 				}
 				sc = append(sc, sp)
 			}
